@@ -500,7 +500,38 @@ def c04(run):
             "are compared byte for byte")
 
 
+C10_CFG = """CONSTANT Dev <- {dev}
+CONSTANT ArgMenu <- MCArgs
+CONSTANT MaxValues = {maxv}
+CONSTANT Kinds <- BothKinds
+INIT Init
+NEXT Next
+{invs}
+"""
+
+
+def c10(run):
+    import valuesh
+    q = run.tier == "quick"
+    dev = current_dev("MC_C10")
+    invs = ["INVARIANT C10_SetEntry", "INVARIANT C10_OptionEntry"]
+    res = lib.run_tlc("MC_C10", C10_CFG.format(dev="NoDev", maxv=3 if q else 4, invs="\n".join(invs + ([] if dev else ["INVARIANT Emit"]))), coverage=False)
+    run.add_tlc("MC_C10(Dev={})", res)
+    if dev:
+        res = lib.run_tlc("MC_C10", C10_CFG.format(dev="CurrentDev", maxv=3 if q else 4, invs="INVARIANT Emit"), coverage=False)
+        run.add_tlc("MC_C10(Dev=Current)", res)
+    valuesh.replay(run, res.lines.get("BEH", []), run.seed)
+    run.assumptions += ["argument values without line breaks; option() with 2 or 3 arguments; set() with a name",
+                        "help text and default of an option are compared as written (quotes included)"]
+    return ("TLC enumerates set() with 0..n values and option() with/without default over 15 argument texts (identifier, "
+            "unquoted incl. escaped quotes at either end and ';', quoted incl. empty, one character, escaped quotes at either "
+            "end, non-ASCII, variable reference, bracket incl. quotes inside) and checks value-count -> type, quote stripping and "
+            "joining against the statement; every command is run through the real pipeline (top level, function body, class) "
+            "and the data directive's fields and note compared")
+
+
 CHECKS = {p: agg_property for p in AGG}
+CHECKS["C10"] = c10
 CHECKS["C04"] = c04
 CHECKS["C06"] = c06
 CHECKS["C05"] = c05
